@@ -40,7 +40,7 @@ CLAIMED = {
              "group, period by period, with these moments, and the likelihood, its contributions (zero without observations) and var_scale with "
              "the exact prediction-error decomposition, in level and deviation mode; with rescale_variance the likelihood concentrated at the maximum-likelihood "
              "scale, the contributions at the rescaled variances and the rescaled smoothed moments, also on a two-variant model whose variants are rescaled separately; "
-             "time-varying standard deviations supplied as data (stds_from_data) enter the joint distribution as an extra shock variance in single periods. For unit-root models (no exact moments) the recursion clauses are evaluated on the output: prediction "
+             "time-varying standard deviations supplied as data (stds_from_data) enter the joint distribution as an extra transition- or measurement-shock variance in single periods. For unit-root models (no exact moments) the recursion clauses are evaluated on the output: prediction "
              "step, update without observation, last period, predicted measurement.",
         note="Trusted: TLC, numpy. Bounds: 4 stationary library models (1-2 states, 1-2 observables, lagged state in the measurement equation), 3 periods, "
              "3-4 missing-data masks, 2x2 variance settings. Unit-root (diffuse) initialisation is not covered by exact moments.",
@@ -51,7 +51,8 @@ CLAIMED = {
              "equation with the smoothed shocks. On kalman_filter's output the same clauses are evaluated with the structural form emitted by the "
              "spec, values are compared with the spec, the model is re-simulated from the smoothed initial condition and shocks, deviation mode "
              "is compared with level mode minus steady state, under three histories of the solved model; clause-only scenarios add a unit-root "
-             "model observed in levels and forward-looking models with anticipated shocks given as data; models with two observables are also "
+             "model observed in levels, forward-looking models with anticipated shocks given as data, measurement-shock means given as data, and a model with log transition "
+             "variables and a plain measurement variable; models with two observables are also "
              "run with their measurement equations rendered as a simultaneous block (ModelLib.SourceB: same meaning, non-symmetric Jacobian).",
         note="Trusted: TLC, numpy. Bounds as C03; for the unit-root and anticipated-shock scenarios only the clauses (not exact moments) are decided. "
              "Transition equations and re-simulation are checked from the second filter period on.",
@@ -123,8 +124,9 @@ CLAIMED = {
              "verifies the solution, the orthogonality of residuals to every regressor and the recovery of noise-free VARs. Every scenario is "
              "replayed through RedVAR.estimate (coefficients, residuals, covariance with and without dof correction), simulate with the estimated "
              "residuals, and the companion-form mean, eigenvalues, largest modulus / stability flag and autocovariances. Prior dummy observations "
-             "(Minnesota and mean priors) are rows of the same normal equations in the spec and are passed as prior_obs to estimate.",
-        note="Trusted: TLC, numpy (companion-form eigenvalues/Lyapunov of the spec's exact coefficients). Bounds: <= 2 endogenous, <= 1 exogenous, order <= 2, "
+             "(Minnesota and mean priors) are rows of the same normal equations in the spec and are passed as prior_obs to estimate; every second estimate is merged into the "
+             "output databox of an earlier estimate of another specification (target_db).",
+        note="Trusted: TLC, numpy (companion-form eigenvalues/Lyapunov of the spec's exact coefficients). Bounds: <= 2 endogenous, <= 2 exogenous, order <= 2, "
              "T <= 8 (thorough 10), 6-11 missing patterns, priors with integer parameters. Resampling not covered. One known finding (simulate with order >= 2).",
         design="5/C18", technique="TLA+ spec (Ols over LinSolve) model-checked by TLC; every TLC-computed scenario replayed into irispie"),
     "C14": dict(
@@ -154,7 +156,7 @@ CLAIMED = {
              "behaviour; simulated behaviours over three handles are replayed through irispie (real CSV files and Dataslates) and after every "
              "step names, contents, descriptions, frequencies and the object-sharing structure of all handles are compared. In the other direction a "
              "seeded driver builds random databoxes (all six frequencies, 1-3 variants, NaN and infinite values, empty series, numbers, lists, descriptions "
-             "with commas and quotes) and applies random operations incl. CSV round trips with round / frequency_span / delimiter / nan_str / start_period_only / ISO-date options; TLC "
+             "with commas and quotes) and applies random operations incl. CSV round trips with round / frequency_span / delimiter / nan_str / start_period_only / ISO-date options and dataslate round trips with initial-condition columns that are dropped again; TLC "
              "validates every recorded history against the actions of Databox.tla (TraceDatabox.tla), the CSV step relationally (values read back are "
              "multiples of 10^-round within half a unit); corrupted histories must be rejected at the corrupted line.",
         note="Trusted: TLC (simulation mode: behaviours are sampled, not exhaustive). Bounds: 9 initial items (Q/M/I series, 1-2 variants, an empty "
@@ -166,7 +168,7 @@ CLAIMED = {
              "end that all equations hold when no value was read before being computed, that exogenized variables take the implied value, and the "
              "frame condition. Every scenario (source text emitted by the spec, also written in rotated order and restored by reorder_equations) "
              "is run through Sequential.simulate and the whole output compared with the spec's final state.",
-        note="Trusted: TLC, numpy exp/log. Bounds: 5 models of 2-3 equations, 3 periods, lags <= 2, plans with <= 2 exogenized variables (transform shifts -1 and -2), values integer or exp(integer).",
+        note="Trusted: TLC, numpy exp/log. Bounds: 7 models of 2-3 equations (one with its deepest lag in an identity), 3 periods, lags <= 2, plans with <= 2 exogenized variables (transform shifts -1 and -2), values integer or exp(integer).",
         design="5/C17", technique="TLA+ spec (SeqSim) model-checked by TLC; every TLC-generated scenario/behaviour replayed into irispie"),
     "C16": dict(
         text="Blocks.tla specifies a valid block ordering as a state machine (SolveBlock enabled only for a square, structurally non-singular "
